@@ -59,7 +59,8 @@ type Cfg struct {
 	ExitCode          int    `json:"exitCode"`
 	DelayMs           int    `json:"delayMs"`
 	EnvDumpTo         string `json:"envDumpTo"`
-	ImpostorOf        string `json:"impostorOf"` // netrpc | grpc
+	ImpostorOf        string `json:"impostorOf"`  // netrpc | grpc
+	ExitAfterMs       int    `json:"exitAfterMs"` // raw mode: stay alive this long after writing, then exit
 	Plaintext         bool   `json:"plaintext"`
 	ImpChain          string `json:"impChain"`          // "" | ipsan | localhost: serve own leaf with the announced certificate appended
 	ImpSaveTo         string `json:"impSaveTo"`         // impostor: write the served certificate and key here
@@ -373,6 +374,9 @@ func raw() {
 		os.Stdout.Close()
 		select {}
 	default:
+		if cfg.ExitAfterMs > 0 {
+			time.Sleep(time.Duration(cfg.ExitAfterMs) * time.Millisecond)
+		}
 		os.Exit(cfg.ExitCode)
 	}
 }
